@@ -43,6 +43,9 @@ CLAIMED = {
  "C04": ("normalised-AST twin diff, parameter-to-sink flow of the query window, callee-precondition check at constructor call sites with per-view-class summaries, offset-expression rule",
          "Static: the translation methods present in both implementations are identical; get_features forwards its flags unchanged and converts/swaps the window ends as the database predicate (decided under C17) expects; no constructor call passes a coordinate-carrying view together with a non-zero annotation_offset, and offsets of sequences rebuilt from strings include the receiver's own offset. That a feature denotes the same residues after any history is not decided.",
          "Trusts python ast, the summaries of SeqView/SeqDataView.copy, that slices of self._seq keep their coordinates."),
+ "C09": ("region/effect abstract interpretation (receiver purity and result sharing) with interprocedural summaries to a two-phase least fix-point over the tree class family; regex character-class comparison of the Newick writer and tokeniser",
+         "Static: none of 36 operations documented as returning a new tree or a value (resolved for TreeNode and PhyloNode) contains a store, container mutation, property-setter effect or child adoption whose target lies exactly in the receiver's region, through calls resolved inside the class; the new trees hold no mutable dict/list/node of the receiver; every character the Newick tokeniser treats as structure makes the writer quote the name, quotes are doubled/un-doubled and blank/underscore munging is symmetric. Topology and path-length invariance are not decided.",
+         "Trusts python ast, the effect model of containers/numpy, the tree-specific effect facts (adoption by constructors, parent setter derived from source), under-approximate through unresolved calls and mixed regions."),
 }
 
 NOT_APPLICABLE = {
